@@ -220,8 +220,9 @@ pub fn run_guest(emu: &mut Emu, g: &Guest, schedule: &[(u32, u8)], max_steps: us
         pre.map.insert(a, v);
     }
     for (&a, &v) in pre.map.iter() {
-        raw_set(&mut emu.cpu.bus, a, v);
+        emu.set_byte(a, v);
     }
+    emu.set_bus_cfg(&g.prog.bus);
     emu.cpu.er = g.prog.er;
     emu.set_ccr(g.prog.ccr);
     emu.set_pc(g.prog.pc);
